@@ -151,7 +151,7 @@ func VerifC09Order() {
 		nd.Assert(pos == len(seq), fmt.Sprintf("file %d: further changes applied after the prescribed sequence or after a failed step", i))
 		if failed {
 			anyFail = true
-			nd.Assert(len(e.effectsFor(i, "write", "diff", "stderr")) == 0, fmt.Sprintf("file %d: written, diffed or described although a step failed", i))
+			nd.Assert(len(e.effectsFor(i, "write", "fsmut", "diff", "stderr")) == 0, fmt.Sprintf("file %d: written, diffed or described although a step failed", i))
 			for _, fx := range e.effectsFor(i, "stdout") {
 				// under --print-only the untouched original may be echoed, as for any file left unchanged
 				nd.Assert(nd.And(o.Print, frBytesEq(fx.data, e.content[i])), fmt.Sprintf("file %d: new bytes printed although a step failed", i))
